@@ -47,6 +47,50 @@ NEEDS = {
     "C20-2": "the valid patch {\"rpcPort\": 0} applied over a stored config with a non-zero RPC port (explicit zero lost)",
 }
 
+# wave 3: candidates delivered to /tmp/mut/out3/<Cxx>/<1|2>, imported as <Cxx>-3 / <Cxx>-4
+NEEDS.update({
+    "C01-3": "TCP: the application reuses its write buffer (as io.Copy does) while the queued segment is still unencrypted - e.g. a sibling session on the same underlay stalled in conn.Write holding sendMutex: the segment aliases the caller's slice, block N is read as block N+1",
+    "C01-4": "the TCP stream is split inside the end padding of an open/close (session-control) segment - peer with the tcpFragment pattern, or a re-segmenting network: the padding is read with one conn.Read",
+    "C02-3": "client and server configured with different legal MTUs (1280 vs 1500) and a write that needs a full-size fragment from the larger-MTU end: receive buffer sized by the local MTU truncates it; loss-free network",
+    "C02-4": ">= 2 sessions multiplexed on one UDP underlay, one application not reading until 4096 segments are queued: its input loop blocks, the underlay's single socket reader blocks, every other session stalls",
+    "C03-3": "the peer's close request already processed and a Read that empties recvQueue but leaves part of the last segment in unreadBuf (caller buffer smaller than the payload): the next Read returns a clean EOF; both transports, nothing lost",
+    "C03-4": "TCP: a conn.Write stall longer than the 1000 x 1 ms graceful-close wait, at least one more data segment queued behind the stalled one, Close() during the stall: the fallback close request overtakes the queue (oLock no longer held across output)",
+    "C04-3": "UDP, server->client: an inserted second copy of the open-session response arriving after the first (nothing modified): nextRecv pushed one too far, the next data fragment dropped as stale and acknowledged (two cooperating sites)",
+    "C04-4": "two client muxes of one user created in the same wall-clock second (session ids from a time-seeded private source) plus an on-path splice of connection A's complete server->client TCP stream into connection B",
+    "C05-3": "history: server running with >= 1 user, reload to an EMPTY user list (delete user + reload), then a well-formed handshake under the deleted credential: still authenticated and answered",
+    "C05-4": "configuration boundary: a user entry with neither password nor hashedPassword is registered with a credential derived from the public name only; a prober knowing the name seals with the empty password (Mux/Registry API; upstream validators reject such entries)",
+    "C06-3": "history: genuine session recorded, server reloaded (SetServerUsers) with the credentials unchanged, recording replayed within the ~2 min validity: the reload cleared both replay caches",
+    "C06-4": "configuration: NONCE_TYPE_FIXED with a custom prefix of 8-12 bytes and a second TCP connection / UDP client within the cache interval: signature = first 8 input bytes, fresh genuine traffic reported as replay",
+    "C07-3": "history: a reload whose only change is dropping the user(s) that sort last (or every user) compares equal to the published list (prefix comparison): removed users still authenticated and attributed",
+    "C07-4": "two registered users sharing one credential, an established UDP session of one, then a first segment of the other from the same IP but another port: existing-session shortcut matches peers by IP only",
+    "C08-3": "UDP, multiplexing, a new session on an underlay older than 60 s (window doubled to 120 s) with the server clock up to 60 s ahead and the right phase: the underlay's one key is outside the server's three slots",
+    "C08-4": "forward-moving clock: a lookup in the last 30 s before a key-slot change followed by one just after it (epoch = Unix/120 changes at 0 s, key slot at 60 s): cache serves another slot's keys; decryptor accepts a key ~5 min away",
+    "C09-3": "UDP, a nonce pattern with applyToAllUDPPacket=false, from the second datagram of a cipher on: nonce returned without the documented user hint (mieru<->mieru unaffected)",
+    "C09-4": "UDP server session in use across a key-slot change with a doc-conforming peer that re-derives its key from the time: the server keeps answering with the key of the session's first datagram",
+    "C10-3": "registered user, TCP, one authentic data/ack segment with payloadLen in (32768, 65535]: new validation helper returns an untyped error, the stream event loop panics",
+    "C10-4": "registered user, UDP, two steps from one socket: open a session normally, then an authentic openSessionRequest with the reserved session id 0: the error is returned from the shared underlay's event loop, the UDP endpoint closes for every user",
+    "C11-3": "a configured credential containing ':' and a supplied pair that moves the user/password boundary to another colon (credential set keyed by user+':'+password)",
+    "C11-4": "history across connections: an earlier complete login whose pooled buffer is reused, then a truncated sub-negotiation {0x01, ulen} on a connection that stays open (single conn.Read into an uncleared sync.Pool buffer)",
+    "C12-3": "a configured PROXY rule whose ipRanges cover a loopback/private range ('*', 127.0.0.0/8) and a user without the grant: rules walked before the local-destination refusal (cooperates with the relay filter that drops only on REJECT)",
+    "C12-4": "a destination written as IPv4-mapped IPv6 (::ffff:a.b.c.d) combined with a non-DIRECT rule on an IPv4 CIDR covering it: netip.Prefix.Contains never matches a mapped address, a later '*' DIRECT rule wins (rebased over fix 1ed9a9e)",
+    "C13-3": "a Write with a write deadline waiting for oLock while the deadline passes (fragment loop left early) and the session used afterwards: sequence numbers reserved in one Add are lost, the next segment goes out behind a hole",
+    "C13-4": "UDP: the peer's closeSessionRequest arriving while an earlier segment is lost or overtaken (seq > nextRecv): nextRecv jumps to seq+1, acks acknowledge sequence numbers never received",
+    "C14-3": "UDP, low entropy off, one write that is an exact multiple k*(MTU-88), k >= 2 (2624, 3936 at MTU 1400): equal-size fragments computed as len/n+1 are one byte too large",
+    "C14-4": "UDP, MTU <= 1366, an open/close segment carrying a large piggybacked first write (MTU-343, 1024] and a large padding draw (deterministic for entropy-strategy users): helper called with swapped int arguments",
+    "C15-3": "history: a client underlay whose scheduler became idle (UDP connection open 3-4 min, or TCP past its traffic limit) but which still has sessions, one housekeeping tick, then client Mux.Close: the underlay dropped out of the table and is never closed",
+    "C15-4": "a client connection that only writes and is closed before ever completing a Read (session still 'attached'): no close request sent, the server half stays open, server Read blocked for ever on TCP",
+    "C16-3": "UDP server with an explicit nonce pattern and a datagram handled through a cipher block that did not open a session (client source port change mid-session; data for an unknown session id): reply emitted with a plain random nonce",
+    "C16-4": "boundary value: an explicit seed of 0 with at least one unset field, compared across host names: treated as 'no seed', the host-derived private seed is used",
+    "C17-3": "a half-mask 1-3 bits heavier than the mode's weight (17-19 for mode 32; never produced by the sender): weight checked by integer division, accepted and decoded to other bytes",
+    "C17-4": "padding polarity 1 together with an all-zero ciphertext chunk (or a trailing 0x00 byte): encoder skips the chunk, the decoder rejects the sender's own output",
+    "C18-3": "history inside one tunnel-mode association: an IP-literal datagram followed by a domain-name datagram: reused datagram struct keeps the previous IP (AddrSpec.ReadFromSocks5 never clears it), payload goes to the previous destination",
+    "C18-4": "two concurrent senders on one association over a carrier that is not a raw TCP socket (mieru Session, net.Pipe): the frame is written as three separate Write calls (net.Buffers) and interleaves",
+    "C19-3": "the server application reading a segment in pieces of about half its payload or less (small buffers): bytes served from the leftover buffer return before the counter is incremented",
+    "C19-4": "history: users published, traffic counted, then a reload in which ONLY quotas differ: the registry keeps the old generation (policy not compared), quota changes never take effect",
+    "C20-3": "history: a patch that passes patch validation but fails full validation after the merge (users-only patch on a fresh server), then Load / GetJSON / a second valid patch: the load cache hands out a shared object that the rejected apply mutated in place",
+    "C20-4": "a non-ASCII user name of <= 64 runes but > 64 bytes: validation counts runes, cipher and registry count bytes; the validated config crashes the client at the first connection",
+})
+
 
 def main():
     out_root = "/verif/seeded"
@@ -55,6 +99,9 @@ def main():
         prop, n = sid.split("-")
         src = "/tmp/mut/out/%s/%s" % (prop, n)
         cj = "/tmp/mut/results/%s_%s.confirm.json" % (prop, n)
+        if int(n) >= 3:
+            src = "/tmp/mut/out3/%s/%d" % (prop, int(n) - 2)
+            cj = "/tmp/mut/results3/%s_%d.confirm.json" % (prop, int(n) - 2)
         if not os.path.exists(os.path.join(src, "patch.diff")) or not os.path.exists(cj):
             print(sid, "not ready")
             continue
@@ -71,6 +118,8 @@ def main():
         os.makedirs(dst)
         shutil.copy(os.path.join(src, "patch.diff"), os.path.join(dst, "patch.diff"))
         shutil.copytree(os.path.join(src, "demo"), os.path.join(dst, "demo"))
+        if os.path.exists(os.path.join(src, "patch.orig.diff")):
+            shutil.copy(os.path.join(src, "patch.orig.diff"), os.path.join(dst, "patch.orig.diff"))
         if os.path.exists(os.path.join(src, "README.md")):
             shutil.copy(os.path.join(src, "README.md"), os.path.join(dst, "README.md"))
         meta = dict(
@@ -80,7 +129,7 @@ def main():
                 how="tools/confirm_seed.py in a scratch worktree of /repo HEAD: demonstration passes on the unchanged tree; with patch.diff applied `go build ./... && go build -tags verif ./...` succeed, the demonstration fails, and `go test -count=1 -vet=off ./...` (whole suite, demonstration removed) passes",
                 demo_on_unchanged_tree=conf.get("demo_on_unchanged_tree"), demo_with_change=conf.get("demo_with_change"),
                 suite_exit=conf.get("suite_exit"), suite_seconds=conf.get("suite_s")),
-            ran=["python3 tools/confirm_seed.py /tmp/mut/out/%s/%s" % (prop, n), "python3 tools/seeded_iso.py %s patch.diff %s" % (sid, prop),
+            ran=["python3 tools/confirm_seed.py %s" % src, "python3 tools/seeded_iso.py %s patch.diff %s" % (sid, prop),
                  "python3 tools/seeded.py %s   (git -C /repo apply; ./check %s; git -C /repo apply -R)" % (sid, prop)],
         )
         json.dump(meta, open(os.path.join(dst, "meta.json"), "w"), indent=1)
